@@ -8,10 +8,21 @@ PROP = {
                                "SwimVerif.Proofs.LinksLaneEvents", "SwimVerif.Proofs.LinksWT",
                                "SwimVerif.Proofs.LinksWTInv", "SwimVerif.Proofs.LinksWTEvents",
                                "SwimVerif.Proofs.LinksWTLane", "SwimVerif.Proofs.LinksWTLive",
-                               "SwimVerif.Proofs.LinksWTCount", "SwimVerif.Model.Counters"],
+                               "SwimVerif.Proofs.LinksWTCount", "SwimVerif.Model.Counters",
+                               "SwimVerif.Model.ReadFeed", "SwimVerif.Proofs.ReadFeed",
+                               "SwimVerif.Proofs.ReadFeedCount"],
     "engines": [wt_engine("C20", quick=4000),
                 {"name": "counters-stress", "crate": "core", "bin": "sv-c20s", "machine": "c20s", "modes": ["monitor"],
-                 "cases": {"quick": 48, "thorough": 1600}, "min_shard": 3, "shards": 4, "nontrivial_min_ops": 1}],
+                 "cases": {"quick": 48, "thorough": 1600}, "min_shard": 3, "shards": 4, "nontrivial_min_ops": 1},
+                # command counters: the real read task + LaneSender + UplinkReporters under AgentRouteTask with
+                # reporting enabled (value and map lanes, bodies the map lane's sender rejects, snapshots)
+                {"name": "cmdcount", "crate": "core", "bin": "sv-rf", "machine": "rf",
+                 "reasons": r"command-count-.*", "cases": {"quick": 3000, "thorough": 100000}, "min_shard": 500,
+                 "nontrivial_min_ops": 5},
+                # the same with racing remotes and small lane buffers: monitor only
+                {"name": "race-cmdcount", "crate": "core", "bin": "sv-rf", "machine": "rf", "modes": ["monitor"],
+                 "reasons": r"command-count-.*", "gen_args": ["race"],
+                 "cases": {"quick": 3000, "thorough": 100000}, "min_shard": 500, "nontrivial_min_ops": 5}],
     "level_text": "Proof: for every sequence of the registry operations (insert, remove, remove remote, remove lane, "
                   "remove all, event counting, snapshots, reporter registration at lane registration) the count "
                   "reported for every lane with a reporter equals the number of remotes linked to it, the aggregate "
@@ -23,14 +34,22 @@ PROP = {
                   "snapshots + residual + routed-uncounted = responses handed to remotes), and with every lane "
                   "holding a reporter every routed response is counted exactly once. The model is tied to the real Links + UplinkReporter "
                   "inside the real WriteTaskState by differential execution (every snapshot compared) and the "
-                  "monitor checks the snapshots against a reference set of (lane, remote) links.",
+                  "monitor checks the snapshots against a reference set of (lane, remote) links. Command counters "
+                  "(read task): for every interleaving of remotes' envelopes, idle flushes, agent reads and "
+                  "snapshots, per lane snapshots + residual = commands received for the lane, the aggregate's = "
+                  "commands received for existing lanes = the sum over the lanes; a command the lane's sender rejects "
+                  "is counted by both, a command for an unknown lane by neither. Tied to the real read task, "
+                  "LaneSender and UplinkReporters under AgentRouteTask with reporting enabled (cmdcount: every "
+                  "snapshot compared; race-cmdcount: racing remotes, monitor).",
     "level_note": "Counters are unbounded naturals (the code saturates at u64::MAX); the atomics of UplinkCounters are "
                   "modelled as atomic steps (fetch_update / CAS loop are linearizable read-modify-writes). The "
                   "unrestricted statement (any lane id in a response) is false for model and code alike "
                   "(C20_write_task_links_fails: a reporter registered for a lane id that already has links is never "
                   "told about them); the runtime only produces responses of registered lanes.",
     "trusted_base": COMMON_TRUST + WT_TRUST + ["modelled, not verified: AtomicU64 counters (Relaxed, single location)"],
-    "assumptions": ["a lane's reporter is registered when the lane is registered (register_lane)",
+    "assumptions": ["command counters: lane endpoints stay open (a failed lane write is not in the read-feed model); "
+                    "one read-task iteration is atomic with respect to snapshots",
+                    "a lane's reporter is registered when the lane is registered (register_lane)",
                     "a response addressed to a remote carries the id of a registered lane (lane ids come from the "
                     "streams of registered lanes)",
                     "event counts stay below u64::MAX"],
